@@ -613,6 +613,51 @@ def _carve_scenario(r, ses):
     return reqs, plan
 
 
+def _links_scenario(r, ses):
+    """directed family: a link-bearing query (page links, cited / citing webentities, most linked pages, the two network
+    queries) over a webentity whose pages link to each other and to a second host is suspended after a few steps; a crawl
+    batch then adds links from, to and below the pages the query sits on (new heads of lists it holds copies of, new children
+    of nodes whose copies it holds), possibly a rule installation carves the webentity up; then the query is resumed"""
+    tag = r.choice([b"site", b"m", b"zz"])
+    dom, other = b"s:http|h:com|h:" + tag + b"|", b"s:http|h:org|h:" + tag + b"|"
+    ses.do("create " + brack([hx(dom)]))
+    ses.do("create " + brack([hx(other)]))
+    pages = [dom + f + b"p:%d|" % j for f in r.sample([b"p:a|", b"p:m|", b"p:zzz|", b"p:k|"], r.randint(1, 3)) for j in range(r.randint(1, 2))]
+    outside = [other + b"p:o%d|" % j for j in range(r.randint(1, 2))]
+    r.shuffle(pages)
+    for l in pages + outside:
+        ses.note(l); ses.pages.append(l)
+    ses.do("addpages %s %d" % (brack([hx(l) for l in pages + outside]), r.randint(0, 1)))
+    everything = pages + outside
+    links = [(r.choice(pages), r.choice(everything)) for _ in range(r.randint(2, 6))] + \
+            [(r.choice(outside), r.choice(pages)) for _ in range(r.randint(1, 3))]
+    links += [r.choice(links) for _ in range(r.randint(0, 2))]          # weights > 1
+    ses.do("addlinks " + brack(["%s>%s" % (hx(a), hx(b)) for a, b in links]))
+    m = ses.we_map()
+    w = next((k for k, v in m.items() if dom in v), None)
+    if w is None:
+        return [], []
+    kind = r.choice(["pagelinks", "pagelinks", "weout", "wein", "mostlinked", "netslow", "net", "crawled", "children"])
+    if kind in WE_QUERIES:
+        q = _we_query(r, kind, w, m[w])
+        if kind == "pagelinks" and r.random() < 0.6:
+            q = (kind, "%d %s 1 1 1" % (w, q[2]["ps"]), dict(q[2], fl="1 1 1"))
+    else:
+        o, a = r.choice("01"), r.choice("01")
+        q = (kind, "%s %s" % (o, a), {"o": o, "a": a})
+    fresh = [r.choice(pages) + b"p:new%d|" % j for j in range(r.randint(1, 2))]
+    data = {}
+    for _ in range(r.randint(1, 3)):
+        src = r.choice(pages + outside + fresh)
+        data[src] = [r.choice(pages + fresh + outside) for _ in range(r.randint(1, 3))]
+    reqs = [q, ("batch", ";".join("%s>%s" % (hx(a), ",".join(hx(t) for t in ts)) for a, ts in data.items()), data)]
+    plan = [0] * r.randint(1, 2 * len(links) + len(pages)) + [1] * 400
+    if r.random() < 0.4:
+        reqs.append(("rule", "%s %s" % (hx(dom), r.choice(["path1", "path2"])), None))
+        plan += [2] * 400
+    return reqs, plan
+
+
 def _net_pairs(a):
     ps = set()
     for row in _items(a):
@@ -722,6 +767,8 @@ def extra_C16(tier, seed, scratch, cfg, out):
             carve_plan = None
             if i % 4 == 3:
                 reqs, carve_plan = _carve_scenario(r, ses)
+            elif i % 4 == 1:
+                reqs, carve_plan = _links_scenario(r, ses)
             else:
                 reqs = _co_scenario(r, ses)
             base = list(ses.lines)
